@@ -57,17 +57,17 @@ impl MagnetLink {
 
     if let Some(name) = &self.name {
       query.push_str("&dn=");
-      query.push_str(name);
+      Self::push_value(&mut query, name);
     }
 
     for tracker in &self.trackers {
       query.push_str("&tr=");
-      query.push_str(tracker.as_str());
+      Self::push_value(&mut query, tracker.as_str());
     }
 
     for peer in &self.peers {
       query.push_str("&x.pe=");
-      query.push_str(&peer.to_string());
+      Self::push_value(&mut query, &peer.to_string());
     }
 
     if !self.indices.is_empty() {
@@ -83,6 +83,32 @@ impl MagnetLink {
     url.set_query(Some(&query));
 
     url
+  }
+
+  /// Append `value` to `query`, percent-encoding every byte that is not
+  /// unreserved or one of `:/,[]?=@`, so that `&`, `+`, `%`, `#`, whitespace
+  /// and control characters in names and tracker URLs survive decoding.
+  fn push_value(query: &mut String, value: &str) {
+    for byte in value.bytes() {
+      match byte {
+        b'A'..=b'Z'
+        | b'a'..=b'z'
+        | b'0'..=b'9'
+        | b'-'
+        | b'.'
+        | b'_'
+        | b'~'
+        | b':'
+        | b'/'
+        | b','
+        | b'['
+        | b']'
+        | b'?'
+        | b'='
+        | b'@' => query.push(char::from(byte)),
+        _ => query.push_str(&format!("%{byte:02X}")),
+      }
+    }
   }
 
   fn parse(text: &str) -> Result<Self, MagnetLinkParseError> {
